@@ -475,31 +475,27 @@ theorem length_dropWhile_le {α : Type} (f : α → Bool) (l : List α) : (l.dro
 theorem splitSeg_snd_le (p : List Char) : (splitSeg p).2.length ≤ p.length := by
   unfold splitSeg; exact length_dropWhile_le _ _
 
-/-- `Node::at`, over the set of routes that pass through the current position. -/
-def atGo : RSet → List Char → Option Nat
-  | S, [] => endsHere S
-  | S, y :: p =>
-    match atGo (advC y S) p with
+/-- `Node::at`, over the set of routes that pass through the current position. `fuel` bounds the
+    length of the path (every step consumes at least one byte). -/
+def atFuel : Nat → RSet → List Char → Option Nat
+  | 0, _, _ => none
+  | _ + 1, S, [] => endsHere S
+  | fuel + 1, S, y :: p =>
+    match atFuel fuel (advC y S) p with
     | some i => some i
     | none =>
       let seg := (splitSeg (y :: p)).1
       let rest := (splitSeg (y :: p)).2
       let viaPar :=
-        if h : y = '/' then none
+        if y = '/' then none
         else match longest (parCands S seg rest.isEmpty) with
           | none => none
-          | some suf => atGo (advPar suf S) rest
+          | some suf => atFuel fuel (advPar suf S) rest
       match viaPar with
       | some i => some i
       | none => starHere S
-termination_by _ p => p.length
-decreasing_by
-  · simp
-  · have : (splitSeg (y :: p)).2.length ≤ p.length := by
-      unfold splitSeg
-      simp only [List.dropWhile_cons, ne_eq, h, not_false_eq_true, decide_true, ↓reduceIte]
-      exact length_dropWhile_le _ _
-    simp; omega
+
+def atGo (S : RSet) (p : List Char) : Option Nat := atFuel (p.length + 1) S p
 
 /-! ### specification side: specificity of routes -/
 
